@@ -28,8 +28,9 @@ def main():
     ap.add_argument("--tier", default="quick")
     ap.add_argument("--no-confirm", action="store_true")
     ap.add_argument("--checks", default="", help="additional property checks to run, space separated")
+    ap.add_argument("--wt", default="", help="scratch worktree (default /tmp/wt/<property>)")
     ns = ap.parse_args()
-    wt = f"/tmp/wt/{ns.pid}"
+    wt = ns.wt or f"/tmp/wt/{ns.pid}"
     patch = os.path.join(ns.seeddir, "patch.diff")
     demo = os.path.join(ns.seeddir, "demo.py")
     meta = json.load(open(os.path.join(ns.seeddir, "meta.json")))
